@@ -70,7 +70,7 @@ impl Sys for World {
     fn step(&self, s: &FileState, a: &Vec<String>) -> Result<Option<FileState>, String> {
         let inp = scratch::path("c08_in.skf");
         let out = scratch::path("c08_out.skf");
-        s.write(&inp);
+        s.write_rot(&inp, s.natural_rot());
         let _ = std::fs::remove_file(&out);
         let remaining: Vec<String> = s.table.names.iter().filter(|n| !a.contains(n)).cloned().collect();
         let want = self.model(&remaining);
